@@ -92,6 +92,20 @@ PINNED: List[Tuple[str, str]] = [
     ("pinned/empty-intersection-parent-child",
      _SETS + _cls("Cls_0", ["self.some_alpha in Set_x"], _A)
      + _cls("Cls_1", ["self.some_alpha in Set_z"], base=("Cls_0", _A))),
+    ("pinned/same-exact-length-parent-and-child",
+     _cls("Cls_0", ["len(self.some_alpha) == 5"], _A)
+     + _cls("Cls_1", ["5 == len(self.some_alpha)", "len(self.some_alpha) <= 7"],
+            base=("Cls_0", _A))),
+    ("pinned/unrecognised-shapes-only",
+     _SETS + _PATTERN
+     + _cls("Cls_0", ["len(self.some_alpha) != 4", "len(self.some_alpha) + 1 > 3",
+                      "len(self.some_alpha) > 1 and len(self.some_alpha) < 9",
+                      "len(self.some_alpha) < 2 or len(self.some_alpha) > 4",
+                      "not (len(self.some_alpha) > 7)",
+                      "not matches_lower(self.some_alpha)",
+                      "self.some_alpha in Set_x or self.some_alpha in Set_y",
+                      "self.some_beta is not None or len(self.some_alpha) < 5",
+                      "len(self.some_alpha) < 5 or self.some_beta is None"], _AB)),
     ("pinned/golden-merge",
      _SETS + _PATTERN
      + _cls("Cls_0", ["len(self.some_alpha) > 3", "self.some_alpha in Set_x",
@@ -228,14 +242,14 @@ class ModelCheck:
         for cname in oracle.classes():
             for pname, level, type_ in oracle.slots(cname):
                 slots.append((cname, pname, level, type_, oracle.expected(cname, pname, level, type_)))
-        unsat_props, zero_min, nontrivial = self.survey(oracle, slots)
+        unsat, zero_min, nontrivial = self.survey(oracle, slots)
 
         try:
             result, errors = infer_for_schema.infer_constraints_by_class(symbol_table=symbol_table)
         except BaseException as err:  # noqa
             if isinstance(err, (KeyboardInterrupt, SystemExit)):
                 raise
-            cause = "unsat-bounds" if unsat_props else ("zero-min" if zero_min else "other")
+            cause = "unsat-bounds" if unsat["len"] else ("zero-min" if zero_min else "other")
             chk.hist("outcomes", "crash")
             self.violation(f"crash/{harness.crash_signature(err)}/{cause}",
                            exception=harness.format_exc(err))
@@ -245,7 +259,7 @@ class ModelCheck:
 
         if errors is not None:
             chk.hist("outcomes", "errors")
-            self.judge_errors(oracle, errors, unsat_props)
+            self.judge_errors(oracle, errors, unsat)
             chk.case(None)
             chk.add_distinct(nontrivial)
             return
@@ -315,21 +329,29 @@ class ModelCheck:
                     )
 
     # -- which slots are unsatisfiable / nontrivial ------------------------------
-    def survey(self, oracle: c15_bounds.Oracle, slots) -> Tuple[set, bool, set]:
-        unsat_props = set()  # property names and constrained primitives
+    def survey(self, oracle: c15_bounds.Oracle, slots) -> Tuple[Dict[str, set], bool, set]:
+        """
+        Return the names involved in unsatisfiable recognised constraints (by kind),
+        whether a recognised bound admits the empty value explicitly, and the keys of
+        the slots with interacting bounds.
+        """
+        unsat: Dict[str, set] = {"len": set(), "set": set()}
         zero_min = False
         nontrivial = set()
         for cname, pname, level, type_, exp in slots:
             base = oracle.base_kind(type_)
+            involved = {pname, cname} | {a.owner for a in exp.atoms if a.status == "R"}
+            atoms = exp.of("set", "R")
+            if len(atoms) >= 2 and (base == "str" or base.startswith("enum:")):
+                if not any(oracle.literals_admitted(atoms, base)):
+                    unsat["set"] |= involved
             atoms = exp.of("len", "R")
             if not atoms or base not in ("str", "bytearray", "list"):
                 continue
-            admitted = oracle.len_admitted(atoms, base)
-            if not any(admitted):
-                unsat_props.add(pname)
-                for atom in atoms:
-                    if atom.target == c15_bounds.SELF and type_.kind == "atomic":
-                        unsat_props.add(type_.name)
+            if not any(oracle.len_admitted(atoms, base)):
+                unsat["len"] |= involved
+                if type_.kind == "atomic":
+                    unsat["len"].add(type_.name)
             for atom in atoms:
                 alone = oracle.len_admitted([atom], base)
                 if alone[0] and (alone[-1] or not alone[1]):
@@ -341,37 +363,58 @@ class ModelCheck:
                     tuple(sorted({a.guard for a in atoms})),
                 )
                 nontrivial.add(key)
-        return unsat_props, zero_min, nontrivial
+        # constrained primitives, whether or not a property uses them
+        pm = oracle.pm
+        for name in pm.order:
+            if not pm.is_constrained_primitive(name):
+                continue
+            atoms = [
+                a for anc in pm.ancestors(name) + [name]
+                for _, found in oracle.own_atoms.get(anc, []) for a in found
+                if a.kind == "len" and a.status == "R"
+            ]
+            if atoms and not any(oracle.len_admitted(atoms, pm.primitive_of(name))):
+                unsat["len"] |= {name} | {a.owner for a in atoms}
+        return unsat, zero_min, nontrivial
 
-    def judge_errors(self, oracle: c15_bounds.Oracle, errors, unsat_props: set) -> None:
+    def judge_errors(self, oracle: c15_bounds.Oracle, errors, unsat: Dict[str, set]) -> None:
+        """
+        Every reported error must be backed by recognised constraints that no value
+        satisfies.  The wording of the messages is not part of the property: an error
+        counts as justified when it names (anywhere in its text or context) a property,
+        class or constrained primitive that takes part in an unsatisfiable combination,
+        or names nothing we know while such a combination exists.
+        """
         chk = self.chk
+        pm = oracle.pm
+        known_names = set(pm.classes)
+        for cls in pm.classes.values():
+            known_names |= {p.name for p in cls.own_props}
+        unsat_names = unsat["len"] | unsat["set"]
         for context, message in leaf_errors(errors):
             chk.count("error_messages_judged")
-            mtch = re.search(r"The property (\S+) has conflicting invariants on the length", message)
-            ctx = re.search(r"from constrained primitive '(\w+)'", context)
-            if mtch is not None:
-                justified = mtch.group(1) in unsat_props
-            elif ctx is not None and "conflicting invariants on the length" in message:
-                justified = ctx.group(1) in unsat_props
-            else:
-                justified = False
+            words = set(re.findall(r"[A-Za-z_][A-Za-z_0-9]*", context + " " + message))
+            named = words & known_names
+            justified = bool(named & unsat_names) if named else bool(unsat_names)
             if justified:
-                chk.count("errors_justified_by_unsatisfiable_bounds")
+                chk.count("errors_justified_by_unsatisfiable_constraints")
+                chk.hist("justified_errors", normalise_message(message))
             else:
                 # where do the blamed invariants live?  (an error about invariants of
                 # ONE class is a different mechanism than one about merged levels)
                 where = "other"
-                if mtch is not None:
+                props = [w for w in named if w not in pm.classes]
+                if props:
                     where = "across-levels"
                     for entries in oracle.own_atoms.values():
                         exact = [a for _, atoms in entries for a in atoms
                                  if a.kind == "len" and a.status == "R"
-                                 and a.target == mtch.group(1) and "==" in a.detail]
+                                 and a.target in props and "==" in a.detail]
                         if len(exact) >= 2:
                             where = "same-class"
                 self.violation(f"spurious-error/{where}/" + normalise_message(message),
                                message=message, context=context,
-                               unsatisfiable=sorted(unsat_props))
+                               unsatisfiable=sorted(unsat_names))
 
     # -- the comparison proper ---------------------------------------------------
     def compare_slot(self, oracle, cname, pname, level, type_, exp, inferred: Inferred) -> None:
